@@ -91,10 +91,15 @@ def side_case(seed):
     dims, cplx, A, G, Am, Gm = herm_problem(rng, gevp)
     order = len(dims)
     n = Am.shape[0]
+    sc = 1.0
+    solver = rng.choice(['eig', 'eigh'])
+    if clause in ('ritz', 'fixed', 'fullrank') and rng.random() < (0.6 if (cplx and solver == 'eig') else 0.15):
+        sc = 10.0 ** rng.choice([4, 6])         # operators of large norm: every tolerance below is relative to the spectrum
+        A = sc * A
+        Am = sc * Am
     import scipy.linalg as sl
     w, V = sl.eigh(Am, Gm)
-    solver = rng.choice(['eig', 'eigh'])
-    desc = dict(clause=clause, dims=dims, complex=cplx, gevp=gevp, solver=solver)
+    desc = dict(clause=clause, dims=dims, complex=cplx, gevp=gevp, solver=solver, scale=sc)
     snap = snapshot([A] + ([G] if G is not None else []))
     tol = 1e-7 * (1 + float(np.max(np.abs(w))))
     try:
@@ -221,7 +226,7 @@ def run(ctx):
         cases.append(lit)
         metas.append({'desc': {'gen': 'gen_int_case', 'case_seed': cs, 'case': d}, 'tags': {'op': 'evp.als'}})
     bad = lib.stage_correspondence(ctx, 'evp', REQ, 'check_C08', cases, metas)
-    n_side = 200 if quick else 12000
+    n_side = 500 if quick else 12000
     if bad:
         n_side *= 4
     for k in range(n_side):
